@@ -13,9 +13,9 @@ pub fn spec() -> Spec {
         replay,
         nshards: |_| 16,
         case_cap_s: |t| t.pick(600, 7200),
-        rule: "states are operation histories over up to two instances (original + one clone) of Partition<u8> and IntPartition driven in lock-step; mode 'fixpoint' (stateright BFS) keys a history by the hook snapshot of every instance's internal forest (elements, parent, rank) plus the reference partition and runs to the fixpoint, so every reachable internal state is visited; mode 'histories' enumerates every history up to a depth with no merging and observes only through the public API. In every state: same representative <=> connected by the unions applied to that instance; representative is a member of its class; classes() is the first-occurrence grouping for every duplicate-free query of <= 3 elements; on every transition: representatives of classes not touched by a union are unchanged, on both instances. Non-trivial state = at least one union of two different classes happened.",
+        rule: "states are operation histories over up to two instances (original + one clone) of Partition<u8> and IntPartition driven in lock-step; mode 'fixpoint' (stateright BFS) keys a history by the hook snapshot of every instance's internal forest (elements, parent, rank) plus the reference partition and runs to the fixpoint, so every reachable internal state is visited; mode 'histories' enumerates every history up to a depth with no merging and observes only through the public API; mode 'unions' enumerates every sequence of unions of distinct elements over 6 elements to a depth on one instance (union by rank needs 6 elements to unite a non-root of a rank-1 class with a rank-2 class). In every state: same representative <=> connected by the unions applied to that instance; representative is a member of its class; classes() is the first-occurrence grouping for every duplicate-free query of <= 3 elements; on every transition: representatives of classes not touched by a union are unchanged, on both instances. Non-trivial state = at least one union of two different classes happened.",
         assumptions: &["fixpoint mode reads the internal arrays through the cfg-gated verif_snapshot hook; the histories mode does not use the hook and cross-checks it"],
-        bounds: |t| json!({"fixpoint_universe": t.pick(3, 4), "instances": 2, "histories_universe": 3, "histories_depth": t.pick(5, 6)}),
+        bounds: |t| json!({"fixpoint_universe": t.pick(3, 4), "instances": 2, "histories_universe": 3, "histories_depth": t.pick(5, 6), "unions_universe": 6, "unions_depth": t.pick(5, 6), "single_instance_fixpoint_universe_thorough": 5}),
     }
 }
 
@@ -246,6 +246,7 @@ impl Hash for St {
 
 struct M {
     u: u8,
+    max_instances: usize,
 }
 
 fn build_state(u: u8, hist: Vec<Op>) -> St {
@@ -280,7 +281,7 @@ impl Model for M {
                 }
             }
         }
-        if s.rf.len() < 2 {
+        if s.rf.len() < self.max_instances {
             acts.push(Op::CloneFrom(0));
         }
     }
@@ -298,14 +299,14 @@ fn hist_json(u: u8, hist: &[Op]) -> Value {
     json!({"universe": u, "history": hist.iter().map(|o| o.to_json()).collect::<Vec<_>>()})
 }
 
-fn run_fixpoint(ctx: &mut Ctx, u: u8) {
-    ctx.announce(&json!({"mode": "fixpoint", "universe": u}));
+fn run_fixpoint(ctx: &mut Ctx, u: u8, max_instances: usize) {
+    ctx.announce(&json!({"mode": "fixpoint", "universe": u, "instances": max_instances}));
     let threads = std::thread::available_parallelism().map(|n| n.get()).unwrap_or(4).min(16);
     let mut counts = vec![];
     // run twice and compare the counts: a nondeterministic model would make stateright's
     // path reconstruction (re-execution) unreliable
     for _ in 0..2 {
-        let c = M { u }.checker().threads(threads).spawn_bfs().join();
+        let c = M { u, max_instances }.checker().threads(threads).spawn_bfs().join();
         counts.push((c.unique_state_count(), c.max_depth()));
         if let Some(p) = c.discovery("oracle") {
             let acts: Vec<Op> = p.into_actions();
@@ -318,9 +319,9 @@ fn run_fixpoint(ctx: &mut Ctx, u: u8) {
             ctx.transitions += c.state_count() as u64;
             ctx.traces += c.state_count() as u64;
             ctx.evaluations += c.unique_state_count() as u64;
-            ctx.add(&format!("fixpoint_u{}_states", u), c.unique_state_count() as i64);
-            ctx.add(&format!("fixpoint_u{}_generated", u), c.state_count() as i64);
-            ctx.max(&format!("fixpoint_u{}_depth", u), c.max_depth() as i64);
+            ctx.add(&format!("fixpoint_u{}_i{}_states", u, max_instances), c.unique_state_count() as i64);
+            ctx.add(&format!("fixpoint_u{}_i{}_generated", u, max_instances), c.state_count() as i64);
+            ctx.max(&format!("fixpoint_u{}_i{}_depth", u, max_instances), c.max_depth() as i64);
         }
     }
     // (max_depth may differ between parallel BFS runs; the set of states may not)
@@ -422,16 +423,101 @@ fn run_histories(ctx: &mut Ctx, u: u8, depth: usize) {
     rec(ctx, u, depth, &mut vec![], 1, false);
 }
 
+/// mode 'unions': every sequence of `depth` unions of two different elements over a universe of `u`
+/// elements on one instance (no merging, black box): union by rank only reaches rank 2 with 4 elements
+/// and needs 6 to unite a non-root of a rank-1 class with a rank-2 class, which the small universes of
+/// the other modes cannot produce.  Checked after every prefix: same representative <=> connected,
+/// representative is a member, representatives of untouched classes unchanged, classes() on two queries.
+fn run_unions(ctx: &mut Ctx, u: u8, depth: usize) {
+    let pairs: Vec<(u8, u8)> = (0..u).flat_map(|a| (0..u).filter(move |&b| b != a).map(move |b| (a, b))).collect();
+    fn rec(ctx: &mut Ctx, u: u8, depth: usize, pairs: &[(u8, u8)], hist: &mut Vec<Op>) {
+        if hist.len() == 2 && !ctx.take() {
+            return;
+        }
+        if hist.len() >= 2 || ctx.shard == 0 || ctx.replaying {
+            ctx.evaluations += 1;
+            ctx.states += 1;
+            ctx.nontrivial += if hist.is_empty() { 0 } else { 1 };
+            ctx.transitions += 1;
+            ctx.traces += 1;
+            if hist.len() <= 2 {
+                ctx.announce(&json!({"mode": "unions", "universe": u, "prefix": hist.iter().map(|o| o.to_json()).collect::<Vec<_>>()}));
+            }
+            let res = std::panic::catch_unwind(std::panic::AssertUnwindSafe(|| {
+                let r = replay_hist(u, hist);
+                let obs = observe(u, &r);
+                if let Some(e) = check_state(u, &r, &obs, false) {
+                    return Some(e);
+                }
+                // classes() on the two natural queries
+                let all: Vec<u8> = (0..u).collect();
+                let rev: Vec<u8> = (0..u).rev().collect();
+                for q in [all, rev] {
+                    let mut exp: Vec<Vec<u8>> = vec![];
+                    for &e in &q {
+                        if let Some(c) = exp.iter_mut().find(|c| r.rf[0][c[0] as usize] == r.rf[0][e as usize]) {
+                            c.push(e);
+                        } else {
+                            exp.push(vec![e]);
+                        }
+                    }
+                    if r.ps[0].classes(&q) != exp {
+                        return Some(format!("Partition: classes({:?}) = {:?}, expected {:?}", q, r.ps[0].classes(&q), exp));
+                    }
+                    let qi: Vec<usize> = q.iter().map(|&x| x as usize).collect();
+                    let expi: Vec<Vec<usize>> = exp.iter().map(|c| c.iter().map(|&x| x as usize).collect()).collect();
+                    if r.ips[0].classes(&qi) != expi {
+                        return Some(format!("IntPartition: classes({:?}) = {:?}, expected {:?}", qi, r.ips[0].classes(&qi), expi));
+                    }
+                }
+                if let Some((last, prefix)) = hist.split_last() {
+                    let rp = replay_hist(u, prefix);
+                    let obs_p = observe(u, &rp);
+                    if let Some(e) = check_stability(u, &rp.rf, &obs_p, &r, &obs, last) {
+                        return Some(e);
+                    }
+                }
+                None
+            }));
+            match res {
+                Ok(None) => {}
+                Ok(Some(why)) => {
+                    ctx.violation("partition", hist_json(u, hist), why, hist.len() as u64);
+                    return;
+                }
+                Err(e) => {
+                    ctx.violation("panic:partition", hist_json(u, hist), panic_message(&e), hist.len() as u64);
+                    return;
+                }
+            }
+        }
+        if hist.len() == depth || ctx.nviolations() > 0 {
+            return;
+        }
+        for &(a, b) in pairs {
+            hist.push(Op::Unite(0, a, b));
+            rec(ctx, u, depth, pairs, hist);
+            hist.pop();
+        }
+    }
+    rec(ctx, u, depth, &pairs, &mut vec![]);
+}
+
 fn run(ctx: &mut Ctx) {
     let tier = ctx.tier;
     run_histories(ctx, 3, tier.pick(5, 6));
+    if ctx.nviolations() == 0 {
+        run_unions(ctx, 6, tier.pick(5, 6));
+    }
     if ctx.nviolations() > 0 {
         return; // shortest counterexample comes from the hook-free DFS
     }
     if ctx.shard == 0 || ctx.replaying {
-        run_fixpoint(ctx, 3);
+        run_fixpoint(ctx, 3, 2);
         if tier.is_thorough() && ctx.nviolations() == 0 {
-            run_fixpoint(ctx, 4);
+            // one instance over a larger universe (finds interleaved, every internal forest)
+            run_fixpoint(ctx, 5, 1);
+            run_fixpoint(ctx, 4, 2);
         }
     }
     // count non-trivial states of the fixpoint runs conservatively: not measured per state there
